@@ -265,7 +265,9 @@ def static_facet(kind, nq, nt):
 def det_facet(det, nq, nt):
     return Facet(name=f"via_{det}", check=check_detector, strategy=lambda tier, d=det: detector_cases(tier, d),
                  rule=(f"{det} fitted and applied to a DataFrame with a generated index type and column labels; transform == positional "
-                       "labelling of predict and dense_to_sparse(transform) == predict; non-trivial = non-default index and >= 1 event"),
+                       "labelling of predict and dense_to_sparse(transform) == predict; index of 9 kinds (incl. repeated time stamps), optionally named, compared "
+                       "by values and name with a snapshot taken before the call; 8 kinds of column labels; the caller's own index / columns must be "
+                       "unchanged; non-trivial = non-default index and >= 1 event"),
                  n_quick=nq, n_thorough=nt, shards_quick=2, shards_thorough=8)
 
 
